@@ -152,6 +152,67 @@ static void cancel_family(int ii, uint8_t *p, int len, const char *place)
 	}
 }
 
+/* long regions (64 KiB .. 4 MiB): kernels may switch strategy above a size threshold. For each length x start alignment: all-zero, and a
+ * single non-zero byte at every offset of the first and the last 640 bytes, around every power of two and at every 4099th offset */
+static void long_regions(void)
+{
+	static const size_t lens[] = { 65536 + 77, (1 << 20) + 127, (1 << 20) + 128 + 33, (1 << 20) + 4096, (4 << 20) + 1 };
+	static const int als[] = { 0, 1, 8, 15, 16, 31, 33 };
+	char key[200];
+	uint8_t *base = g_persist((4 << 20) + 4096 + 64, G_END);
+	uint64_t unit = 100000;
+	for (int ii = 0; ii < NIMPL; ii++)
+		for (unsigned li = 0; li < 5; li++)
+			for (unsigned ai = 0; ai < 7; ai++) {
+				if (!v_mine(unit++))
+					continue;
+				if (v_deadline_hit())
+					return;
+				if (impl[ii].level >= 0)
+					cpu_set_level(impl[ii].level);
+				size_t len = lens[li];
+				/* the region ends at the inaccessible page when the alignment is 0, else it starts `als` bytes into the mapping's tail */
+				uint8_t *end = base + (4 << 20) + 4096 + 64, *p = end - len - (als[ai] ? 64 - als[ai] : 0);
+				memset(base, 0, (4 << 20) + 4096 + 64);
+				for (uint8_t *q = p + len; q < end; q++)
+					*q = 0xEE; /* non-zero neighbours behind the region */
+				if (p > base)
+					p[-1] = 0xEE;
+				zd_fn f = impl[ii].f;
+				int r = -1;
+				if (!V_TRY()) {
+					snprintf(key, sizeof key, "%s fault long len=%zu align=%d", impl[ii].name, len, als[ai]);
+					v_violation(key, "fault at %s addr=%p (%s)", v_sym(v_fault_rip), (void *)v_fault_addr, v_fault_write ? "write" : "read");
+					continue;
+				}
+				r = (int)PCALL(f, p, len);
+				v_eval();
+				if (r != 0) {
+					snprintf(key, sizeof key, "%s all-zero long len=%zu align=%d", impl[ii].name, len, als[ai]);
+					v_violation(key, "returned %d for an all-zero region", r);
+				}
+				for (size_t pos = 0; pos < len; pos++) {
+					int near_pow2 = 0;
+					for (size_t b = 1024; b < len; b <<= 1)
+						if (pos + 40 >= b && pos < b + 40)
+							near_pow2 = 1;
+					if (!(pos < 640 || len - pos <= 640 || near_pow2 || pos % 4099 == 0))
+						continue;
+					p[pos] = (uint8_t)(1 + pos % 255);
+					r = (int)PCALL(f, p, len);
+					p[pos] = 0;
+					v_eval();
+					if (r == 0) {
+						snprintf(key, sizeof key, "%s missed long len=%zu align=%d", impl[ii].name, len, als[ai]);
+						v_violation(key, "non-zero byte at offset %zu of %zu (start address %% 64 = %d) not detected", pos, len, (int)((uintptr_t)p % 64));
+						break;
+					}
+				}
+				V_END();
+				v_nontrivial(v_mix(0x10c9 + ii, li * 8 + ai));
+			}
+}
+
 /* regions larger than 4 GiB (len is a size_t): block counters and offsets kept in 32-bit registers would wrap.
  * The region lives in a MAP_NORESERVE anonymous mapping that is never written except for the single probe byte,
  * so it is backed by the shared zero page and costs no memory. */
@@ -255,11 +316,13 @@ int main(int argc, char **argv)
 			v_nontrivial(v_mix(ii, len));
 		}
 	}
+	long_regions();
 out:
 	if (v_shard == 0) {
 		v_sample("len=17 placement E: region all zero -> 0; byte 0x80 at offset 16 -> non-zero; canary neighbours non-zero");
 		v_note("dense families: zeros + non-zero suffix, non-zero prefix + zeros, sliding 64- and 128-byte non-zero windows, every start, fill ff/01/80 (all byte lanes of a vector block non-zero at once)");
 		v_note("cancelling pairs: words of 1/2/4/8 bytes with one non-zero byte, repeated or negated at distance W, 2W, 16, 32, 64, 128, at every offset (placements E, S+0, S+1, S+8)");
+		v_note("long regions: 64 KiB+77 .. 4 MiB+1 bytes x 7 start alignments: all-zero and a single non-zero byte at every offset of the first/last 640 bytes, around every power of two and every 4099th offset");
 		v_note("placements: E (ends at PROT_NONE page), S+off (starts off bytes after a PROT_NONE page), off=0..63 for len<=256 else {0,1,7,8,15,16,31,32,63}");
 	}
 	return v_finish();
